@@ -13,7 +13,7 @@ small_Ms        == 0..6
 small_Ns        == 0..3
 small_Sizes(m)  == IF m = 0 THEN 1..3 ELSE 1..(m + 1)
 small_Extras(n) == {0}
-small_Pre       == {1, 2}
+small_Pre       == {2}
 small_PreActive == {0, 1}
 
 \* utf8
